@@ -500,6 +500,8 @@ def load_known(path=None):
 
 
 def _op_matches(op, pat) -> bool:
+    if '$any' in pat:
+        return any(_op_matches(op, p) for p in pat['$any'])
     for k, v in pat.items():
         if k not in op:
             return False
